@@ -97,7 +97,7 @@ pub fn apply_unary(op: &Op, src: Src) -> Src {
 
 fn probe_world<T: Send + Sync + 'static>(out: Arc<Source<T>>, recf: RecFn<T>) -> WorldRt {
     WorldRt {
-        subscribe: Some(Box::new(move |p| {
+        subscribe: Some(std::rc::Rc::new(move |p| {
             let pr = Probe::new(p, recf.clone());
             let sink = pr.sink();
             out(Message::Handshake(sink));
@@ -186,7 +186,7 @@ fn build(op: &Op) -> WorldRt {
             let fe = callbag::for_each(|x: i64| call(CALL_FOREACH, x));
             let pup = int_puppet(0);
             WorldRt {
-                subscribe: Some(Box::new(move |p| {
+                subscribe: Some(std::rc::Rc::new(move |p| {
                     with(|ex| ex.probe(p).subscribed = true);
                     let src: Src = Arc::new(pup.source());
                     let src = match &inner {
